@@ -423,7 +423,7 @@ theorem eval_of_chain (d : Defs) :
         omega
     · unfold evalService
       cases hx : findService d id with
-      | none => simp
+      | none => simp [hx]
       | some x =>
         obtain ⟨rs, hrs, _⟩ := reqsOf_service hx
         obtain ⟨b', hb', _⟩ := reqChain_step hrs h
@@ -459,17 +459,16 @@ theorem eval_of_chain (d : Defs) :
         simp only
         apply allM_ne_diverge
         intro r hr
-        have := ih r (hall r (hsub r hr)) f' (by omega)
-        exact seq_ne_diverge _ _ this.2.1 this.2.2
+        exact (ih r (hall r (hsub r hr)) f' (by omega)).2.1
     · unfold evalService
       cases hx : findService d id with
-      | none => simp
+      | none => simp [hx]
       | some x =>
         obtain ⟨rs, hrs, hsub⟩ := reqsOf_service hx
         obtain ⟨b', hb', hall⟩ := reqChain_step hrs h
         have : b' = b := by omega
         subst this
-        simp only
+        simp only [hx]
         apply seq_ne_diverge
         · apply allM_ne_diverge
           intro r hr
